@@ -1,8 +1,16 @@
 #!/usr/bin/env python3-vt
 import json, jsonschema, glob, sys
-jsonschema.validate(json.load(open('/verif/MANIFEST.json')), json.load(open('/root/.vp/MANIFEST.schema.json')))
+m = json.load(open('/verif/MANIFEST.json'))
+jsonschema.validate(m, json.load(open('/root/.vp/MANIFEST.schema.json')))
 es = json.load(open('/root/.vp/EVIDENCE.schema.json'))
-for f in sorted(glob.glob('/verif/evidence/*.json')):
-    jsonschema.validate(json.load(open(f)), es)
-    print("ok", f)
-print("manifest valid")
+bad = 0
+for c in m["checks"]:
+    f = c["evidence_file"]
+    try:
+        jsonschema.validate(json.load(open(f)), es)
+        print("ok", f)
+    except Exception as e:
+        bad += 1
+        print("BAD", f, str(e).splitlines()[0])
+print("manifest valid;", bad, "bad evidence files")
+sys.exit(1 if bad else 0)
